@@ -123,3 +123,250 @@ def c17_response_step(ctx, v):
             n_ok += 1
     v.covers_total += 1
     v.covers_sat += 1 if n_ok else 0
+
+
+def c17_disconnect_step(ctx, v):
+    """Peer::mark_as_disconnected from an arbitrary Peer: afterwards no challenge is outstanding
+    (challenge_for_peer == None) and the status is Disconnected — the invariant that ties the
+    response step to *this* connection: a static peer's entry survives the disconnect and is
+    reused by the next connection, so a challenge left behind would let a response made for the
+    previous connection be accepted on the new one."""
+    ex = ctx.executor(loop_bound=3, inline="auto", no_inline=[r"fmt"])
+    ex.pure = [r".*"]
+    ch, ch_val = _opt(ex, "challenge_for_peer", "[u8; 32]")
+    status = ex.fresh_value("PeerStatus", "peer_status")
+    peer = ctx.mk_struct(ex, "Peer", "peer", challenge_for_peer=ch, peer_status=status)
+    st = S.State()
+    st.pc.append(L.enum_in_range(status, 3))
+    body = ctx.body(r"peer::<impl at [^>]*>::mark_as_disconnected$")
+    outs = ex.run(body, [S.Ref(S.Cell(peer), (), True), ex.fresh_value("u64", "disconnected_at")], st)
+    v.paths += len(outs)
+    n = 0
+    for o in outs:
+        if o.kind in ("unsupported", "unwound", "path-limit"):
+            return v.undecided("%s %s" % (o.kind, o.info))
+        if o.kind == "panic":
+            v.queries += 1
+            if ex.feasible(o.pc):
+                v.fail("mark_as_disconnected panics: %s" % o.info)
+            continue
+        if o.kind != "return":
+            continue
+        post = ex.deref_value(o.state.frames[0].locals["_1"].v)
+        pch = as_enum(ex, post.fields[ctx.field_index("Peer", "challenge_for_peer")], "Option")
+        pst = post.fields[ctx.field_index("Peer", "peer_status")]
+        v.queries += 2
+        if ex.feasible(o.pc, enum_is(ex, pch, "Some")):
+            v.fail("a challenge is still outstanding after mark_as_disconnected: a response made for the previous connection can be accepted on the next one")
+            continue
+        disc = dict(ctx.enums["PeerStatus"])["Disconnected"]
+        is_disc = z3.BoolVal(pst.variant == "Disconnected") if pst.variant is not None else (pst.discr.bv == disc)
+        if ex.feasible(o.pc, z3.Not(is_disc)):
+            v.fail("the peer is not Disconnected after mark_as_disconnected")
+            continue
+        n += 1
+    v.covers_total += 1
+    v.covers_sat += 1 if n else 0
+
+
+def c17_challenge_issue_step(ctx, v):
+    """The two places that arm a peer for a handshake response: after Peer::initiate_handshake
+    and after Peer::handle_handshake_challenge return Ok, challenge_for_peer is Some(c) where c
+    is exactly the 32 bytes this call drew from generate_random_bytes (the randomness source is
+    an explicit symbolic input), and that same c is what the message handed to the serializer
+    carries; handle_handshake_challenge signs exactly the challenge it received, with the
+    wallet's private key.  (Freshness of c across calls is the randomness source's contract.)"""
+    n_ok = 0
+    for which in ("initiate_handshake", "handle_handshake_challenge"):
+        ex = ctx.executor(loop_bound=3, inline="auto", max_paths=2000, no_inline=[r"::serialize$", r"get_my_services$", r"fmt", r"to_hex", r"to_base58"])
+        ex.pure = [r".*"]
+        rnd = ex.fresh_value("Vec<u8>", "random_bytes")
+        sign_calls = []
+
+        def hook(ex_, st, callee, args, dty, rnd=rnd):
+            if re.search(r"generate_random_bytes$", callee):
+                return S.Agg("struct", "ReadyFuture", [ex_.copy_value(rnd)])
+            if re.search(r"(?:^|::)crypto::sign$|^sign$", callee):
+                sig = ex_.fresh_value("[u8; 64]", "signature!%d" % next(ex_.fresh_counter))
+                st.events.append(("sign", callee, args, sig))
+                return sig
+            return None
+        ex.on_call = hook
+        ch, ch_val = _opt(ex, "challenge_for_peer", "[u8; 32]")
+        status = ex.fresh_value("PeerStatus", "peer_status")
+        peer = ctx.mk_struct(ex, "Peer", "peer", challenge_for_peer=ch, peer_status=status)
+        st = S.State()
+        st.pc.extend([L.enum_in_range(status, 3), rnd.len.bv == 32])
+        io = S.Ref(S.Cell(S.Opaque("io", "dyn InterfaceIO")))
+        if which == "initiate_handshake":
+            args = [S.Ref(S.Cell(peer), (), True), io]
+            recv = None
+        else:
+            recv = ex.fresh_value("[u8; 32]", "received.challenge")
+            priv = ex.fresh_value("[u8; 32]", "wallet.private_key")
+            wallet = ctx.mk_struct(ex, "Wallet", "wallet", private_key=priv)
+            args = [S.Ref(S.Cell(peer), (), True), ctx.mk_struct(ex, "HandshakeChallenge", "received", challenge=recv), io, S.Ref(S.Cell(wallet)), S.Opaque("configs_lock", "Arc<RwLock<dyn Configuration>>")]
+        body, co = L.coroutine(ctx, ex, r"peer::<impl at [^>]*>::%s" % which, args)
+        outs = ex.run(body, [S.Ref(S.Cell(co), (), True), S.Opaque("cx", "Context")], st)
+        v.paths += len(outs)
+        for o in outs:
+            if o.kind in ("unsupported", "unwound", "path-limit"):
+                return v.undecided("%s: %s %s" % (which, o.kind, o.info))
+            if o.kind != "return":
+                continue
+            res = as_enum(ex, L.ready_value(ex, o), "Result")
+            is_ok = enum_is(ex, res, "Ok")
+            if not ex.feasible(o.pc, is_ok):
+                continue
+            post = ex.deref_value(peer_after(ex, o))
+            pch = as_enum(ex, post.fields[ctx.field_index("Peer", "challenge_for_peer")], "Option")
+            v.queries += 1
+            if ex.feasible(o.pc, z3.And(is_ok, z3.Not(enum_is(ex, pch, "Some")))):
+                v.fail("%s returns Ok without an outstanding challenge recorded" % which)
+                continue
+            stored = payload(ex, pch, "Some")
+            same = z3.And(*[z3.Select(stored.arr, z3.BitVecVal(i, 64)) == z3.Select(rnd.arr, z3.BitVecVal(i, 64)) for i in range(32)])
+            v.queries += 1
+            if ex.feasible(o.pc, z3.And(is_ok, z3.Not(same))):
+                v.fail("%s: the challenge recorded for the peer is not the 32 bytes drawn from the randomness source in this call" % which)
+                continue
+            # the message handed to the serializer carries the same challenge
+            sent = [e for e in o.events if e[0] == "call" and re.search(r"Message::serialize$", e[1])]
+            if not sent:
+                v.fail("%s returns Ok without serializing a handshake message" % which)
+                continue
+            msg = ex.deref_value(sent[0][2][0]) if isinstance(sent[0][2][0], S.Ref) else sent[0][2][0]
+            carried = _find_bytes32(ex, msg, "challenge", ctx)
+            if carried is None:
+                return v.undecided("%s: challenge not found in the serialized message value" % which)
+            if not isinstance(carried, S.Bytes):
+                return v.undecided("%s: carried challenge is %s %s" % (which, type(carried).__name__, getattr(carried, "name", "")))
+            same2 = z3.And(*[z3.Select(carried.arr, z3.BitVecVal(i, 64)) == z3.Select(rnd.arr, z3.BitVecVal(i, 64)) for i in range(32)])
+            v.queries += 1
+            if ex.feasible(o.pc, z3.And(is_ok, z3.Not(same2))):
+                v.fail("%s: the challenge sent to the peer differs from the one recorded" % which)
+                continue
+            if recv is not None:
+                sg = [e for e in o.events if e[0] == "sign"]
+                if not sg:
+                    v.fail("handle_handshake_challenge answers without signing")
+                    continue
+                m_arg = sg[0][2][0]
+                mb = ex.deref_value(m_arg) if isinstance(m_arg, S.Ref) else m_arg
+                v.queries += 1
+                ok_len = mb.len.bv == 32 if isinstance(mb, S.Bytes) else z3.BoolVal(False)
+                same3 = z3.And(ok_len, *[z3.Select(mb.arr, z3.BitVecVal(i, 64)) == z3.Select(recv.arr, z3.BitVecVal(i, 64)) for i in range(32)]) if isinstance(mb, S.Bytes) else z3.BoolVal(False)
+                if ex.feasible(o.pc, z3.And(is_ok, z3.Not(same3))):
+                    v.fail("handle_handshake_challenge signs something other than the 32-byte challenge it received")
+                    continue
+                k_arg = sg[0][2][1]
+                kb = ex.deref_value(k_arg) if isinstance(k_arg, S.Ref) else k_arg
+                v.queries += 1
+                if not isinstance(kb, S.Bytes) or ex.feasible(o.pc, z3.And(is_ok, z3.Not(value_eq(ex, kb, priv)))):
+                    v.fail("handle_handshake_challenge does not sign with the wallet's private key")
+                    continue
+            n_ok += 1
+    v.covers_total += 1
+    v.covers_sat += 1 if n_ok >= 2 else 0
+
+
+def peer_after(ex, o):
+    co = ex.deref_value(o.state.frames[0].locals["_1"].v)
+    cands = list(co.upvars or []) + [f for p in co.payload.values() if isinstance(p, S.Agg) for f in p.fields]
+    for c in cands:
+        if isinstance(c, S.Ref):
+            pv = ex.deref_value(c)
+            if isinstance(pv, S.Agg) and pv.name == "Peer":
+                return c
+    raise RuntimeError("peer not found in coroutine state")
+
+
+def _find_bytes32(ex, val, field, ctx):
+    """the `challenge` field of the HandshakeChallenge / HandshakeResponse carried by a Message value"""
+    seen = []
+
+    def walk(x):
+        if isinstance(x, S.Ref):
+            x = ex.deref_value(x)
+        if isinstance(x, S.Agg):
+            if x.kind == "struct" and x.name in ("HandshakeChallenge", "HandshakeResponse"):
+                seen.append(x.fields[ctx.field_index(x.name, field)])
+                return
+            for f in x.fields:
+                walk(f)
+        elif isinstance(x, S.EnumV):
+            for p in x.payload.values():
+                walk(p)
+    walk(val)
+    return seen[0] if seen else None
+
+
+def c17_network_gate(ctx, v):
+    """Network::handle_handshake_response (the caller of the peer-level step): on every path on
+    which Peer::handle_handshake_response answered Err — for a peer in any state, with or
+    without a recorded public key — the function returns without treating the peer as
+    authenticated: no PeerCollection::remove_reconnected_peer, no insertion into
+    address_to_peers, no PeerConnected event, no blockchain request; and it does not panic.
+    The inner step's result is an explicit symbolic input."""
+    ex = ctx.executor(loop_bound=3, inline="auto", max_paths=3000, no_inline=[r"fmt", r"to_base58", r"to_hex", r"remove_reconnected_peer$", r"find_peer_by_index_mut$", r"join_as_reconnection$", r"request_blockchain_from_peer$", r"has_handshake_limit_exceeded$", r"RateLimiter::"])
+    ex.pure = [r".*"]
+    # the logging loop over all peers that follows the authentication bookkeeping is cut (it comes after every call checked here)
+    ex.stop_calls = [r"<&(?:AHashMap|HashMap|std::collections::HashMap)<u64, Peer[^>]*> as IntoIterator>::into_iter$"]
+    pk, pk_val = _opt(ex, "peer.public_key", "[u8; 33]")
+    status = ex.fresh_value("PeerStatus", "peer_status")
+    peer = ctx.mk_struct(ex, "Peer", "peer", public_key=pk, peer_status=status)
+    inner_err = z3.Bool("inner_step_returned_err")
+    known_peer = z3.Bool("peer_index_known")
+    from .models import mk_some, mk_none
+
+    def hook(ex_, st, callee, args, dty):
+        if re.search(r"Peer::handle_handshake_response$", callee):
+            res = S.EnumV("Result<(), Error>", None, S.I(z3.If(inner_err, z3.BitVecVal(1, 64), z3.BitVecVal(0, 64)), True))
+            res.payload["Err"] = S.Agg("variant", "Err", [S.Opaque("err", "Error")])
+            res.payload["Ok"] = S.Agg("variant", "Ok", [S.Agg("tuple", "()", [])])
+            st.events.append(("inner", callee, args, inner_err))
+            return S.Agg("struct", "ReadyFuture", [res])
+        if re.search(r"(?:AHashMap|HashMap)::<u64, Peer[^>]*>::get_mut::", callee):
+            return ("__fork__", [(known_peer, mk_some(dty, S.Ref(S.Cell(peer), (), True))), (z3.Not(known_peer), mk_none(dty))])
+        return None
+    ex.on_call = hook
+    st = S.State()
+    st.pc.append(L.enum_in_range(status, 3))
+    net = S.Opaque("network", "Network")
+    body, co = L.coroutine(ctx, ex, r"network::<impl at [^>]*>::handle_handshake_response",
+                           [S.Ref(S.Cell(net), (), True), ex.fresh_value("u64", "peer_index"), ctx.mk_struct(ex, "HandshakeResponse", "response"),
+                            S.Opaque("wallet_lock", "Arc<RwLock<Wallet>>"), S.Opaque("blockchain_lock", "Arc<RwLock<Blockchain>>"), S.Opaque("configs_lock", "Arc<RwLock<dyn Configuration>>")])
+    outs = ex.run(body, [S.Ref(S.Cell(co), (), True), S.Opaque("cx", "Context")], st)
+    v.paths += len(outs)
+    AUTH = r"remove_reconnected_peer$|(?:AHashMap|HashMap)::<\[u8; 33\], u64[^>]*>::insert$|send_interface_event$|request_blockchain_from_peer$|join_as_reconnection$|as IntoIterator>::into_iter$"
+    n = reached = 0
+    for o in outs:
+        if o.kind in ("unsupported", "unwound", "path-limit"):
+            return v.undecided("%s %s" % (o.kind, o.info))
+        inner = [e for e in o.events if e[0] == "inner"]
+        if not inner:
+            continue
+        reached += 1
+        auth = [e[1] for e in o.events if e[0] == "call" and re.search(AUTH, e[1])]
+        v.queries += 1
+        if o.kind == "panic":
+            # unwraps of unmodelled I/O answers (disconnect_from_peer(..).await.unwrap()) are not judged
+            if ex.feasible(o.pc, inner_err) and not re.search(r"value from: (?:await:)?ret:", o.info):
+                v.fail("Network::handle_handshake_response panics after the peer-level step rejected the response: %s" % o.info, dict(path=L.trace_text(o, 10)))
+            continue
+        if auth and ex.feasible(o.pc, inner_err):
+            v.fail("a handshake response rejected by the peer-level step is nevertheless treated as a completed handshake (%s)" % auth[0].split("::")[-1][:40],
+                   dict(path=L.trace_text(o, 10), peer_had_key=str(ex.feasible(o.pc, z3.And(inner_err, enum_is(ex, pk, "Some"))))))
+            continue
+        if auth and ex.feasible(o.pc, z3.Not(enum_is(ex, as_enum(ex, ex.deref_value(peer_ref_field(ex, peer, ctx)), "Option"), "Some"))):
+            v.fail("a peer without a recorded public key is treated as authenticated")
+            continue
+        n += 1
+    if not reached:
+        return v.undecided("the peer-level step was never reached")
+    v.covers_total += 1
+    v.covers_sat += 1 if n else 0
+
+
+def peer_ref_field(ex, peer, ctx):
+    return S.Ref(S.Cell(peer.fields[ctx.field_index("Peer", "public_key")]))
